@@ -292,12 +292,35 @@ fn operand(rng: &mut Rng, vi: usize) -> String {
     String::from_utf8(s).unwrap_or_default()
 }
 
+/// A re-spelling (or near miss) of `l`.
+fn related(rng: &mut Rng, l: &str) -> String {
+    let mut s = l.as_bytes().to_vec();
+    match rng.below(9) {
+        0 => { for c in s.iter_mut() { *c = c.to_ascii_lowercase(); } }                       // also lowers the prefix: "t1…"
+        1 => { for c in s.iter_mut() { *c = c.to_ascii_uppercase(); } }
+        2 => { for c in s.iter_mut() { if rng.chance(1, 2) { *c = c.to_ascii_lowercase(); } } }
+        3 => { if s.starts_with(b"T1") { s.drain(..2); } else { s.insert(0, b'T'); s.insert(1, b'1'); } }
+        4 => { if s.starts_with(b"T1") { s[0] = b't'; } else if !s.is_empty() { s[0] = s[0].to_ascii_lowercase(); } }
+        5 => { for c in s.iter_mut().skip(2) { *c = c.to_ascii_lowercase(); } }              // digits lowered, prefix kept
+        6 => { if !s.is_empty() { let p = rng.below(s.len() as u64) as usize; s[p] = *rng.pick(b"gG@ 0fF"); } }
+        7 => { s.pop(); }
+        _ => { s.push(b'0'); }
+    }
+    String::from_utf8(s).unwrap_or_default()
+}
+
 pub fn stream_cmpstr(out: &mut impl Write, seed: u64, budget: usize) {
     let mut rng = Rng::new(seed, 41);
     for i in 0..budget {
         let vi = i % 5;
         let l = operand(&mut rng, vi);
-        let r = if rng.chance(1, 5) { l.clone() } else { operand(&mut rng, vi) };
-        emit_cmpstr(out, vi, &l, &r);
+        // related pairs: the second operand is the first one re-spelt (case, prefix) or slightly damaged,
+        // in either order — equality shortcuts and normalisation slips only show on such pairs
+        let r = match rng.below(10) {
+            0 | 1 => l.clone(),
+            2..=4 => related(&mut rng, &l),
+            _ => operand(&mut rng, vi),
+        };
+        if rng.chance(1, 2) { emit_cmpstr(out, vi, &l, &r); } else { emit_cmpstr(out, vi, &r, &l); }
     }
 }
